@@ -282,6 +282,9 @@ func (c *rigClient) rawTCP(addr string) (*vquic.Stream, error) {
 	if err := protocol.WriteTCPRequest(str, addr); err != nil {
 		return str, err
 	}
+	// half-close: a stream the dispatcher declines is handed to the HTTP/3 request parser, which
+	// (like quic-go/http3) blocks on incomplete frames until the stream ends
+	_ = str.Close()
 	return str, nil
 }
 
